@@ -354,6 +354,41 @@ def decrypt_finds_subkey(r: int) -> bool:
     return bytes(dec.message) == b'hello' and len(Used.pk) == 1 and Used.pk[0].fingerprint == COMPONENTS[r].fingerprint
 
 
+def _after_raising_scope(op):
+    """a protected key whose unlock scope ended by an exception is locked again: private operations refuse"""
+    k = LOCKED
+    try:
+        with k.unlock('pw'):
+            raise KeyError('inside the scope')
+    except KeyError:
+        pass
+    if k.is_unlocked or any(sk.is_unlocked for sk in k.subkeys.values()):
+        return False
+    Oracle.reset()
+    try:
+        if op == 0:
+            k.sign(b'doc', created=T_NEW)
+        elif op == 1:
+            k.certify(PUB2.userids[0], created=T_NEW)
+        else:
+            k.revoke(k.userids[0], created=T_NEW)
+    except PGPError:
+        return True
+    return False
+
+
+@ob('O16.7', 'private operations refuse on a protected key after its unlock scope was left through an exception (the key is locked again), as they do before any unlock',
+    'operation in {sign, certify, revoke}; real unlock of a key protected with the real S2K / cipher (Ed25519 primary and subkey); native per path', cond_timeout={'q': 200, 't': 600})
+def locked_after_raising_scope(op: int) -> bool:
+    """
+    pre: 0 <= op < 3
+    post: _
+    """
+    o = conc(op, 3)
+    with native():
+        return _after_raising_scope(o)
+
+
 T_LATER = T_NEW + __import__('datetime').timedelta(seconds=50)
 
 
@@ -413,7 +448,7 @@ def foreign_certification_ignored(op: int, f0: int, f1: int, f2: int, fc: int, t
         return _foreign_cert_case(op, f0, f1, f2, fc, tamper)
 
 
-SANITY = ['foreign_certification_ignored(0, 1, 5, 5, 4, True)', 'foreign_certification_ignored(2, 1, 3, 5, 4, True)', 'foreign_certification_ignored(0, 1, 5, 5, 2, False)', 'foreign_certification_ignored(2, 0, 0, 3, 3, True)'] + ['selects_component(0, 2, 0, 0, False, 0)', 'selects_component(0, 1, 2, 0, False, 0)', 'selects_component(0, 1, 5, 2, False, 0)', 'selects_component(0, 1, 5, 5, False, 0)',
+SANITY = ['locked_after_raising_scope(%d)' % o for o in range(3)] + ['foreign_certification_ignored(0, 1, 5, 5, 4, True)', 'foreign_certification_ignored(2, 1, 3, 5, 4, True)', 'foreign_certification_ignored(0, 1, 5, 5, 2, False)', 'foreign_certification_ignored(2, 0, 0, 3, 3, True)'] + ['selects_component(0, 2, 0, 0, False, 0)', 'selects_component(0, 1, 2, 0, False, 0)', 'selects_component(0, 1, 5, 2, False, 0)', 'selects_component(0, 1, 5, 5, False, 0)',
           'selects_component(1, 0, 0, 0, False, 0)', 'selects_component(2, 1, 0, 3, False, 0)', 'selects_component(2, 1, 2, 5, False, 0)', 'selects_component(0, 1, 5, 0, True, 2)',
           'selects_component(0, 1, 2, 0, True, 5)', 'identity_choice(1, 2, 1, 0)', 'identity_choice(0, 2, 1, 0)', 'identity_choice(1, 1, 2, 2)', 'identity_choice(3, 0, 2, 5)', 'identity_choice(2, 4, 0, 0)', 'enforcement_off(1, 5, 5)', 'enforcement_off(1, 2, 0)'] + ['precondition_matrix(%d, %d)' % (f, o) for f in range(5) for o in range(7)] + \
          ['decrypt_finds_subkey(%d)' % r for r in range(4)]
